@@ -292,17 +292,17 @@ def racesDelete (all : List Call) (c : Call) : Bool :=
       | _ => false
   | _, _ => false
 
-/-- like `linearizable`, but a write that races a range delete of its key may be
-    linearized as having had no effect (its values are lost) -/
-def linearizableLossy (all : List Call) : Nat → St → List Call → Bool
+/-- like `linearizable`, but a call satisfying `lose` may be linearized as having had no
+    effect (its values are lost) -/
+def linearizableLossy (lose : Call → Bool) : Nat → St → List Call → Bool
   | 0, _, pending => pending.isEmpty
   | fuel + 1, st, pending =>
     pending.isEmpty ||
     pending.any fun c =>
       minimal pending c &&
         ((let (st', fs) := stepSt st 0 (c.op, c.obs)
-          fs.all Fail.sizeOnly && linearizableLossy all fuel st' (pending.filter fun p => !p.same c)) ||
-         (racesDelete all c && linearizableLossy all fuel st (pending.filter fun p => !p.same c)))
+          fs.all Fail.sizeOnly && linearizableLossy lose fuel st' (pending.filter fun p => !p.same c)) ||
+         (lose c && linearizableLossy lose fuel st (pending.filter fun p => !p.same c)))
 
 /-- the history is NOT linearizable, but it would be if writes racing a range delete of
     their key could be lost: the signature of the known finding `lost-write-racing-delete` -/
@@ -311,7 +311,7 @@ def lostWriteRacingDelete (pre : List (Op × Obs)) (hist : List Call) : Bool :=
   | none => false
   | some st =>
     let calls := hist.flatMap Call.parts
-    !linearizable calls.length st calls && linearizableLossy calls calls.length st calls
+    !linearizable calls.length st calls && linearizableLossy (racesDelete calls) calls.length st calls
 
 /-- the history is linearizable only because sizes reported inside the concurrent block
     are not held to the size clause (evidence tag `conc:size-racy`) -/
@@ -333,5 +333,49 @@ def hasWriteRacingDelete (hist : List Call) : Bool :=
     difference that is subtracted no longer matches) -/
 def sizeResidueRacingDelete (pre : List (Op × Obs)) (hist : List Call) : Bool :=
   sizeRacy pre hist && hasWriteRacingDelete hist
+
+/-- some read (`Values`, `Deduplicate`) overlaps another call of the block in time: the
+    read compacts the entry in place (without adjusting the size, finding
+    `size-stale-after-dedup`) at a moment that need not be its linearization point -/
+def hasReadOverlap (hist : List Call) : Bool :=
+  hist.any fun c =>
+    (match c.op with
+     | .values _ => true
+     | .dedup => true
+     | _ => false) &&
+    hist.any fun d => !c.same d && decide (d.inv < c.ret) && decide (c.inv < d.ret)
+
+/-- the stale size of a compacting read, seen inside a concurrent block -/
+def sizeStaleRacingRead (pre : List (Op × Obs)) (hist : List Call) : Bool :=
+  sizeRacy pre hist && !hasWriteRacingDelete hist && hasReadOverlap hist
+
+/-- does the operation call `Cache.init()` (lazy creation of the store)? -/
+def initializes : Op → Bool
+  | .write _ => true
+  | .snapshot => true
+  | .clear _ => true
+  | .delrange _ _ _ => true
+  | _ => false
+
+/-- an accepted single-key write that overlaps in time another call that also runs `init()` -/
+def racesInit (all : List Call) (c : Call) : Bool :=
+  match c.op, c.obs with
+  | .write _, .ok =>
+    all.any fun d => !(d.thread == c.thread && d.index == c.index) && initializes d.op &&
+      decide (d.inv < c.ret) && decide (c.inv < d.ret)
+  | _, _ => false
+
+/-- signature of the known finding `lost-write-racing-init`: nothing before the block
+    initialised the cache, the history is not linearizable, but it would be if writes
+    overlapping another initialising call could be lost (`Cache.init` lets the loser of
+    its CAS proceed while `c.store` is still the `emptyStore`, whose `write` drops the
+    values and reports success) -/
+def lostWriteRacingInit (pre : List (Op × Obs)) (hist : List Call) : Bool :=
+  match finalSt {} 0 pre with
+  | none => false
+  | some st =>
+    let calls := hist.flatMap Call.parts
+    !(pre.any fun x => initializes x.1) &&
+    !linearizable calls.length st calls && linearizableLossy (racesInit calls) calls.length st calls
 
 end Influx.Spec.C09
